@@ -308,6 +308,33 @@ fn run(ctx: &mut Ctx) {
             }
         }
     });
+    // ---- every integer literal of the library sources as a PadWing device id, and every 6-byte window of consecutive
+    // small literals is not enumerable - but a device id is: accepted iff it is one of the 71 documented ones, and the
+    // board it denotes equals the board of that name
+    let dict = super::source_dictionary("detector/src");
+    ctx.cases("device-id-dictionary", 1, |ctx, _i, _rng| {
+        for &v in dict.iter().filter(|v| **v <= u32::MAX as u64) {
+            for cand in [v as u32, (v as u32).swap_bytes()] {
+                ctx.eval();
+                let known = PWB_BOARDS.iter().find(|b| crate::refs::pwb_device_id(&b.1) == cand);
+                match (guard(|| padwing::BoardId::try_from(cand).ok()), known) {
+                    (Ok(Some(b)), Some(k)) if b.name() == k.0 && Some(b) == padwing::BoardId::try_from(k.0).ok() => ctx.count("device ids from the sources that denote their documented board"),
+                    (Ok(None), None) => ctx.count("other source constants rejected as device ids"),
+                    (Ok(got), _) => ctx.violation("device id accepted that is not documented, or denoting another board than its name", format!("device id {} -> {:?}, documented: {:?}", cand, got.map(|b| b.name().to_string()), known.map(|k| k.0)), json!({"device_id": cand})),
+                    (Err(p), _) => ctx.panic_violation("padwing::BoardId::try_from(u32)", &p, json!({"device_id": cand})),
+                }
+            }
+        }
+        // the same through the MAC constructor for every documented MAC: the board equals the board of that name
+        for k in PWB_BOARDS.iter() {
+            ctx.eval();
+            let by_mac = padwing::BoardId::try_from(k.1).ok();
+            let by_name = padwing::BoardId::try_from(k.0).ok();
+            if by_mac.is_none() || by_mac != by_name {
+                ctx.violation("one board name denotes two boards depending on the constructor", format!("board {}", k.0), json!({"board": k.0}));
+            }
+        }
+    });
     // ---- characters that are a documented ASCII character once truncated to their low byte (U+0142 -> 'B', ...), or once
     // case-folded / width-folded: each character of each of ~400 valid names replaced by such a look-alike
     ctx.cases("char-aliases", 16, |ctx, part, _rng| {
